@@ -6,7 +6,10 @@ package tmstate_test
 // compared with what the machine did at every quiescence point.
 
 import (
+	"bytes"
 	"fmt"
+
+	"github.com/gordian-engine/gordian/tm/tmconsensus"
 )
 
 const (
@@ -50,6 +53,7 @@ type epochState struct {
 
 	// shown to the machine in this round
 	shownVS map[string]bool // VoteSummary digests
+	lastOK  map[string]bool // acceptable proposal hashes of the latest view shown
 	okPH    map[string]bool // acceptable proposal hashes
 	allPH   map[string]bool
 	maxPrec map[string]uint64 // per block hash, max precommit power shown
@@ -167,9 +171,17 @@ func (m *rmodel) resetRound(h uint64, r uint32) {
 	m.p16 = false
 }
 
-func (m *rmodel) onEntranceReq(idx int, h uint64, r uint32) {
+func (m *rmodel) onEntranceReq(idx int, h uint64, r uint32, hasActions bool) {
+	// C07: participation (Actions channel present) matches membership in the set the chain prescribes for h.
+	want := !m.w.cfg.Follower && m.w.valsAt(h).self >= 0
+	if hasActions != want {
+		m.failf("C07", "participation", "", "entrance %d/%d: actions channel present=%v, machine's key member of the validator set of height %d: %v", h, r, hasActions, h, want)
+	}
 	// C08: entered (h,r) strictly increasing, leave reasons, finalization stored.
 	if m.lastEntered != nil {
+		if m.storedHR == nil || *m.storedHR != (hr{h, r}) {
+			m.failf("C10", "position-not-recorded", "", "entered %d/%d without SetStateMachineHeightRound(%d,%d) having been written (stored: %v)", h, r, h, r, m.storedHR)
+		}
 		p := *m.lastEntered
 		switch {
 		case h == p.H && r == p.R+1:
@@ -187,6 +199,10 @@ func (m *rmodel) onEntranceReq(idx int, h uint64, r uint32) {
 	} else {
 		if (hr{h, r}) != m.bootExpect {
 			m.failf("C08", "boot-entrance", "", "incarnation entered %d/%d, stores prescribe %d/%d", h, r, m.bootExpect.H, m.bootExpect.R)
+			m.failf("C10", "boot-entrance", "", "incarnation entered %d/%d, the durable state (stored position %v, stored finalizations) prescribes %d/%d", h, r, m.storedHR, m.bootExpect.H, m.bootExpect.R)
+		}
+		if s := m.storedHR; s != nil && (h < s.H || (h == s.H && r < s.R)) {
+			m.failf("C10", "boot-behind-stored-position", "", "incarnation entered %d/%d, stored position is %d/%d", h, r, s.H, s.R)
 		}
 		if h > m.w.initH && !m.finSaved[h-1] {
 			m.failf("C08", "next-height-before-finalization-stored", "", "booted into %d/%d without stored finalization of %d", h, r, h-1)
@@ -213,6 +229,10 @@ func (m *rmodel) show(f viewFacts) {
 	e := m.cur
 	e.shownVS[f.vsDigest] = true
 	e.total = f.Total
+	e.lastOK = map[string]bool{}
+	for k := range f.okPH {
+		e.lastOK[k] = true
+	}
 	for k := range f.okPH {
 		e.okPH[k] = true
 	}
@@ -569,8 +589,8 @@ func (m *rmodel) scan() {
 
 	for _, ev := range log {
 		e := m.epochs[ev.Epoch]
-		if ev.Inc != w.inc {
-			e = nil
+		if ev.Epoch < 0 || ev.Epoch >= len(w.entrances) || w.entrances[ev.Epoch].inc != ev.Inc {
+			e = nil // before the incarnation's first entrance
 		}
 		inRound := e != nil && ev.H == e.H && ev.R == e.R
 		switch ev.Kind {
@@ -637,6 +657,8 @@ func (m *rmodel) scan() {
 		case "save-fin":
 			if ev.Err == "" {
 				m.finSaved[ev.H] = true
+			} else if ev.Err != "context canceled" {
+				m.failf("C10", "finalization-overwrite-attempt", "", "SaveFinalization(%d) refused: %s", ev.H, ev.Err)
 			}
 		case "set-hr":
 			if ev.Err == "" {
@@ -669,6 +691,9 @@ func (m *rmodel) onStratCall(c *stratCall) {
 		if !e.vrv {
 			m.failf("C08", "enter-round-in-catchup", "", "EnterRound(%d/%d) although the entrance was not answered with a view", c.h, c.r)
 		}
+		for _, ph := range c.phs {
+			m.checkPHSets("EnterRound", ph)
+		}
 		e.enterCalls++
 		return
 	}
@@ -677,10 +702,27 @@ func (m *rmodel) onStratCall(c *stratCall) {
 		return
 	}
 	for _, ph := range c.phs {
+		m.checkPHSets(name, ph)
 		if ph.Header.Height != e.H || ph.Round != e.R {
 			m.failf("C08", "strategy-call-round", "", "%s passed a proposal of %d/%d while machine is in %d/%d", name, ph.Header.Height, ph.Round, e.H, e.R)
 		} else if !e.allPH[string(ph.Header.Hash)] && !m.ownPH[string(ph.Header.Hash)] {
 			m.failf("C08", "strategy-call-round", "", "%s passed proposal %s that no view of %d/%d contained", name, short(string(ph.Header.Hash)), e.H, e.R)
+		}
+	}
+	if c.kind == scConsider || c.kind == scChoose {
+		got := map[string]bool{}
+		for _, ph := range c.phs {
+			got[string(ph.Header.Hash)] = true
+		}
+		for k := range e.lastOK {
+			if !got[k] {
+				m.failf("C07", "acceptable-proposal-withheld", "", "%s in %d/%d was not passed proposal %s although it carries the validator sets the driver returned", name, e.H, e.R, short(k))
+			}
+		}
+		for k := range got {
+			if !e.lastOK[k] && !m.ownPH[k] {
+				m.failf("C07", "unacceptable-proposal-reached-strategy", "", "%s in %d/%d was passed proposal %s, which is not an acceptable proposal of the latest view", name, e.H, e.R, short(k))
+			}
 		}
 	}
 	switch c.kind {
@@ -705,6 +747,32 @@ func (m *rmodel) onStratCall(c *stratCall) {
 	}
 }
 
+// sameValSet compares a validator set with the one the chain prescribes (keys, powers, hashes).
+func sameValSet(a tmconsensus.ValidatorSet, vi *valInfo) bool {
+	b := vi.set
+	if len(a.Validators) != len(b.Validators) || string(a.PubKeyHash) != string(b.PubKeyHash) || string(a.VotePowerHash) != string(b.VotePowerHash) {
+		return false
+	}
+	for i := range a.Validators {
+		if a.Validators[i].Power != b.Validators[i].Power || !bytes.Equal(a.Validators[i].PubKey.PubKeyBytes(), b.Validators[i].PubKey.PubKeyBytes()) {
+			return false
+		}
+	}
+	return true
+}
+
+// checkPHSets (C07): a proposed header handed to the strategy, or built by the machine, carries
+// ValidatorSet = what the driver returned for h-2 and NextValidatorSet = what it returned for h-1.
+func (m *rmodel) checkPHSets(where string, ph tmconsensus.ProposedHeader) {
+	h := ph.Header.Height
+	if !sameValSet(ph.Header.ValidatorSet, m.w.valsAt(h)) {
+		m.failf("C07", "validator-set", "", "%s: proposal %s of %d/%d carries a ValidatorSet (%d validators) other than the one the driver returned for height %d", where, short(string(ph.Header.Hash)), h, ph.Round, len(ph.Header.ValidatorSet.Validators), int64(h)-2)
+	}
+	if !sameValSet(ph.Header.NextValidatorSet, m.w.valsAt(h+1)) {
+		m.failf("C07", "next-validator-set", "", "%s: proposal %s of %d/%d carries a NextValidatorSet (%d validators) other than the one the driver returned for height %d", where, short(string(ph.Header.Hash)), h, ph.Round, len(ph.Header.NextValidatorSet.Validators), int64(h)-1)
+	}
+}
+
 func shorts(ss []string) []string {
 	out := make([]string, len(ss))
 	for i, s := range ss {
@@ -715,6 +783,9 @@ func shorts(ss []string) []string {
 
 // onFinReq checks C08's finalize clause for one request.
 func (m *rmodel) onFinReq(epoch int, hash string, height uint64) {
+	if m.finSaved[height] {
+		m.failf("C10", "finalize-request-for-stored-height", "", "finalize request for height %d (%s) although its finalization is stored", height, short(hash))
+	}
 	e := m.epochs[epoch]
 	if e == nil {
 		m.failf("C08", "finalize-justified", "", "finalize request for %s outside any round", short(hash))
